@@ -75,12 +75,54 @@ type Program struct {
 	fieldByOldKey map[string]*types.Var
 	renamedFn     map[*types.Func]bool
 	Renames       []string
+	Restored      []string // baseline helpers that were deleted from the tree and given back from the baseline (restore.go)
+	RestoreError  string
+	Folded        int // stretches of code folded back into a call of a restored helper
+	restoredFn    map[*types.Func]bool
 	ssaOnce       bool
 	SSA           *SSAInfo
 }
 
-// Load type-checks every non-test package of /repo for cfg.
+// Load type-checks every non-test package of /repo for cfg, recognises renamed baseline functions and
+// fields (rename.go), gives deleted baseline helpers back (restore.go) and normalises the syntax the rules
+// see (inline.go).
 func Load(repo string, cfg Config, overlay map[string][]byte) (*Program, error) {
+	p, err := loadOnce(repo, cfg, overlay)
+	if err != nil {
+		return nil, err
+	}
+	p.resolveRenames()
+	if os.Getenv("GNETLINT_NORESTORE") == "" {
+		if ov, keys := restoreOverlay(p); len(ov) > 0 {
+			merged := map[string][]byte{}
+			for k, v := range overlay {
+				merged[k] = v
+			}
+			for k, v := range ov {
+				merged[k] = v
+			}
+			if p2, err2 := loadOnce(repo, cfg, merged); err2 == nil {
+				canon = map[types.Object]string{}
+				p2.Overlay = overlay
+				p2.resolveRenames()
+				p2.Restored = keys
+				p2.restoredFn = map[*types.Func]bool{}
+				for fn, d := range p2.declOf {
+					if strings.HasSuffix(p2.Fset.Position(d.Pos()).Filename, "zz_gnetlint_restored.go") {
+						p2.restoredFn[fn] = true
+					}
+				}
+				p = p2
+			} else {
+				p.RestoreError = err2.Error()
+			}
+		}
+	}
+	p.normalise()
+	return p, nil
+}
+
+func loadOnce(repo string, cfg Config, overlay map[string][]byte) (*Program, error) {
 	env := []string{}
 	for _, e := range os.Environ() {
 		k := strings.SplitN(e, "=", 2)[0]
@@ -145,8 +187,6 @@ func Load(repo string, cfg Config, overlay map[string][]byte) (*Program, error) 
 			}
 		}
 	}
-	p.resolveRenames()
-	p.normalise()
 	return p, nil
 }
 
